@@ -11,7 +11,9 @@ import (
 // C06 wire (mirror of coq/theories/C06_Wire.v)
 //
 //	input    = cfg t (op arg)*
-//	           cfg 0 = stack.New[int]() (t ignored), cfg 1 = stack.NewLinked[int](t)
+//	           cfg = impl + 2*inst: impl 0 = stack.New[T]() (t ignored), impl 1 = stack.NewLinked[T](t);
+//	           inst 0: T = int, 1: T = string, 2: T = struct{K int; S string} (c05_instances.go:
+//	           elements go through an injective codec int <-> T, the model ignores inst)
 //	           op 1 Push arg | 2 Pop | 3 Peek | 4 Search arg | 5 Size
 //	observed = result of every op, then the end of the case:
 //	           Size (= n), min(n,4096) x Pop, Size, Pop, Size, Peek
@@ -31,6 +33,47 @@ type c06Stack interface {
 	Peek() int
 	Search(int) bool
 	Size() int
+}
+
+// the same containers at another element type, behind the int codec
+type c06GStack[T comparable] interface {
+	Push(T)
+	Pop() T
+	Peek() T
+	Search(T) bool
+	Size() int
+}
+
+type c06G[T comparable] struct {
+	s   c06GStack[T]
+	enc func(int) T
+	dec func(T) int
+}
+
+func (a c06G[T]) Push(v int)        { a.s.Push(a.enc(v)) }
+func (a c06G[T]) Pop() int          { return a.dec(a.s.Pop()) }
+func (a c06G[T]) Peek() int         { return a.dec(a.s.Peek()) }
+func (a c06G[T]) Search(v int) bool { return a.s.Search(a.enc(v)) }
+func (a c06G[T]) Size() int         { return a.s.Size() }
+
+func c06New(cfg, t int) c06Stack {
+	impl, inst := cfg%2, cfg/2
+	switch inst {
+	case 1:
+		if impl == 0 {
+			return c06G[string]{stack.New[string](), instEncString, instDecString}
+		}
+		return c06G[string]{stack.NewLinked[string](instEncString(t)), instEncString, instDecString}
+	case 2:
+		if impl == 0 {
+			return c06G[instKS]{stack.New[instKS](), instEncKS, instDecKS}
+		}
+		return c06G[instKS]{stack.NewLinked[instKS](instEncKS(t)), instEncKS, instDecKS}
+	}
+	if impl == 0 {
+		return stack.New[int]()
+	}
+	return stack.NewLinked[int](t)
 }
 
 func c06Apply(s c06Stack, op, arg int, out *[]int64) {
@@ -53,12 +96,10 @@ func execC06(in []int64) []int64 {
 	body := func() {
 		r := &R{w: in}
 		cfg, t := r.Int(), r.Int()
-		var s c06Stack
-		if cfg == 0 {
-			s = stack.New[int]()
-		} else {
-			s = stack.NewLinked[int](t)
+		if cfg < 0 || cfg > 5 {
+			cfg = ((cfg % 2) + 2) % 2 // the model answers wire_error; run something deterministic
 		}
+		s := c06New(cfg, t)
 		for len(r.w) >= 2 {
 			op, arg := r.Int(), r.Int()
 			c06Apply(s, op, arg, &out)
@@ -121,7 +162,7 @@ func c06Nontrivial(size0 int, ops [][2]int) bool {
 
 func c06Emit(g *Gen, stream string, cfg, t int, ops [][2]int) {
 	size0 := 0
-	if cfg == 1 {
+	if cfg%2 == 1 {
 		size0 = 1
 	}
 	nt := c06Nontrivial(size0, ops)
@@ -131,11 +172,12 @@ func c06Emit(g *Gen, stream string, cfg, t int, ops [][2]int) {
 		w = append(w, int64(o[0]), int64(o[1]))
 	}
 	g.Case(stream, nt, w)
-	if cfg == 0 {
+	if cfg%2 == 0 {
 		g.Count("impl.slice")
 	} else {
 		g.Count("impl.linked")
 	}
+	g.Count("inst." + instName(cfg/2))
 	g.Count(largeLenBucket(len(ops)))
 	if nt {
 		g.Count("empty+refill")
@@ -165,6 +207,44 @@ func c06Emit(g *Gen, stream string, cfg, t int, ops [][2]int) {
 	if maxSize >= 3 {
 		g.Count("reaches.depth>=3")
 	}
+}
+
+// c06RandomHistory: length 400, phases that fill, empty (over-pop) and churn.
+func c06RandomHistory(g *Gen, val func() int) [][2]int {
+	var ops [][2]int
+	for len(ops) < 400 {
+		phase := g.Rng.Intn(4)
+		plen := 1 + g.Rng.Intn(24)
+		for i := 0; i < plen && len(ops) < 400; i++ {
+			x := g.Rng.Intn(100)
+			var o [2]int
+			switch {
+			case x < 12:
+				o = [2]int{c06Peek, 0}
+			case x < 24:
+				o = [2]int{c06Search, val()}
+			case x < 33:
+				o = [2]int{c06Size, 0}
+			default:
+				push := false
+				switch phase {
+				case 0: // fill
+					push = x < 85
+				case 1, 2: // empty, overshooting
+					push = x < 42
+				default: // churn
+					push = x < 67
+				}
+				if push {
+					o = [2]int{c06Push, val()}
+				} else {
+					o = [2]int{c06Pop, 0}
+				}
+			}
+			ops = append(ops, o)
+		}
+	}
+	return ops
 }
 
 func genC06(g *Gen) {
@@ -208,39 +288,7 @@ func genC06(g *Gen) {
 	}
 	nrand := g.Pick(400, 6000)
 	for c := 0; c < nrand; c++ {
-		var ops [][2]int
-		for len(ops) < 400 {
-			phase := g.Rng.Intn(4)
-			plen := 1 + g.Rng.Intn(24)
-			for i := 0; i < plen && len(ops) < 400; i++ {
-				x := g.Rng.Intn(100)
-				var o [2]int
-				switch {
-				case x < 12:
-					o = [2]int{c06Peek, 0}
-				case x < 24:
-					o = [2]int{c06Search, val()}
-				case x < 33:
-					o = [2]int{c06Size, 0}
-				default:
-					push := false
-					switch phase {
-					case 0: // fill
-						push = x < 85
-					case 1, 2: // empty, overshooting
-						push = x < 42
-					default: // churn
-						push = x < 67
-					}
-					if push {
-						o = [2]int{c06Push, val()}
-					} else {
-						o = [2]int{c06Pop, 0}
-					}
-				}
-				ops = append(ops, o)
-			}
-		}
+		ops := c06RandomHistory(g, val)
 		c06Emit(g, "random", c%2, val(), ops)
 	}
 
@@ -271,17 +319,48 @@ func genC06(g *Gen) {
 		})
 	}
 
+	// 2c. instances: the same kinds of histories on Stack[T] / LStack[T] for
+	// T = string and T = struct{K int; S string} (c05_instances.go): every
+	// sequence over the 9-op alphabet up to length 4 (thorough 5), random
+	// length-400 histories, and the long structured histories up to 130 elements
+	for _, inst := range instOther {
+		for impl := 0; impl <= 1; impl++ {
+			cfg := impl + 2*inst
+			seqsUpTo(len(c06Alpha), g.Pick(4, 5), func(seq []int) {
+				ops := make([][2]int, len(seq))
+				for i, v := range seq {
+					ops[i] = c06Alpha[v]
+				}
+				c06Emit(g, "instances", cfg, 1, ops)
+			})
+			for c := 0; c < g.Pick(150, 1500); c++ {
+				ops := c06RandomHistory(g, val)
+				c06Emit(g, "instances", cfg, val(), ops)
+			}
+			largePlans(g.Quick(), 130, func(name string, build func(b *largeBuilder)) {
+				var b *largeBuilder
+				if impl == 0 {
+					b = newLargeBuilder(false, c06LargeOps, nil, 1)
+				} else {
+					b = newLargeBuilder(false, c06LargeOps, []int{1}, 2)
+				}
+				build(b)
+				c06Emit(g, "instances", cfg, 1, b.ops)
+			})
+		}
+	}
+
 	// 3. "malformed" use: reads and pops on an empty / emptied stack, extreme
 	// values, searching for the zero value
 	extremes := []int{0, -1, 1 << 40, -(1 << 40)}
-	for cfg := 0; cfg <= 1; cfg++ {
+	for cfg := 0; cfg <= 5; cfg++ {
 		for _, t := range extremes {
 			for k := 0; k <= 3; k++ {
 				var ops [][2]int
 				for i := 0; i < k; i++ {
 					ops = append(ops, [2]int{c06Push, extremes[(i+1)%len(extremes)]})
 				}
-				for i := 0; i < k+cfg; i++ {
+				for i := 0; i < k+cfg%2; i++ {
 					ops = append(ops, [2]int{c06Pop, 0})
 				}
 				for rep := 0; rep < 3; rep++ {
@@ -317,10 +396,14 @@ func describeC06(in []int64) string {
 		return "malformed"
 	}
 	var sb strings.Builder
-	if in[0] == 0 {
-		sb.WriteString("stack.New[int]()")
+	impl, inst := int(in[0])%2, int(in[0])/2
+	if impl == 0 {
+		fmt.Fprintf(&sb, "stack.New[%s]()", instName(inst))
 	} else {
-		fmt.Fprintf(&sb, "stack.NewLinked(%d)", in[1])
+		fmt.Fprintf(&sb, "stack.NewLinked[%s](%d)", instName(inst), in[1])
+	}
+	if inst != 0 {
+		sb.WriteString(" [elements through the int codec of c05_instances.go]")
 	}
 	rest := in[2:]
 	for i := 0; i+1 < len(rest) && i < 80; i += 2 {
@@ -341,6 +424,7 @@ func init() {
 			"for stack.New and for stack.NewLinked(1), result of every op observed, then Size + pop-all + Pop/Size/Peek on the emptied stack; " +
 			"exhaustive-deep: every sequence of length 6 to 8 (thorough: 7 to 9) over {Push 1|2, Pop, Peek}; " +
 			"random: length-400 histories in fill / over-pop / churn phases over values 0..5; " +
+			"instances: for T = string and T = struct{K int; S string} (elements through an injective int codec whose strings are built afresh at run time for every use, zero value = 0) and both implementations: every sequence up to length 4 (thorough 5) over the same alphabet, 150 (1500) random length-400 histories each, long structured histories up to 130 elements, and the malformed stream; " +
 			"large: structured long histories over distinct increasing values for both implementations, Peek/Size/Search observed at several points and a pop-all at the end: " +
 			"bulk grow to N in {40,130,300,1030} (thorough also 2050, 4000; linked stack: N <= 300 and saw-tooth up to 256 in the quick tier, its node-heap model being cubic in N) then pop 3N/4+2, N or N+3; saw-tooth p+1 -> p/4-1 over the powers of two p up to 1024 (4096) with thrashing across each capacity boundary; " +
 			"push/pop windows at depth 1..4 repeated 130, 300, 1100 (5000) times; malformed: reads and pops on empty and emptied stacks with extreme values. " +
